@@ -106,6 +106,10 @@ def show_expr(e):
         return repr(e[1])
     if k == 'int':
         return 'int'
+    if k == 'ci':
+        return str(e[1])
+    if k == 'len':
+        return 'len(%s)' % e[1]
     if k == 'b':
         return '%s(%s, %s)' % (e[1], show_expr(e[2]), show_expr(e[3]))
     if k == 'neg':
@@ -169,6 +173,12 @@ ELEMS_OF_ARG0 = {
     'std::option::Option::<T>::unwrap', 'std::result::Result::<T, E>::unwrap',
     'rayon::iter::from_par_iter::<impl rayon::iter::FromParallelIterator<T> for std::vec::Vec<T>>::from_par_iter',
     'subslice',
+}
+
+OPAQUE_FNS = {
+    'functions::gamma::gamma': 'gamma', 'functions::gamma::beta': 'beta', 'functions::gamma::digamma': 'digamma',
+    'functions::statistical::erf': 'erf', 'functions::combinatorial::binom_coeff': 'binom_coeff',
+    'functions::combinatorial::binom_coeff_alt': 'binom_coeff',
 }
 
 FRESH_EMPTY = {'std::vec::Vec::<T>::with_capacity', 'std::vec::Vec::<T>::new'}
@@ -244,6 +254,8 @@ class ElemEngine:
         if k == 'const':
             if t[1] == 'f64':
                 return frozenset([('c', t[2])])
+            if isinstance(t[2], int) and not isinstance(t[2], bool) and t[1] in ('i32', 'u32', 'i64', 'u64', 'usize', 'isize'):
+                return frozenset([('ci', t[2])])
             return frozenset([INT])
         if k == 'constx':
             if t[3] is not None and t[3] in self.pdb.consts and self.pdb.consts[t[3]]['ty'] == 'f64':
@@ -263,11 +275,24 @@ class ElemEngine:
             return frozenset([INT])
         if k == 'cast':
             if t[1] == 'IntToFloat':
+                inner = flat(self.ev(env, t[2]))
+                if inner and all(e[0] in ('ci', 'len', 'sym', 'fld', 'cast') for e in inner):
+                    return frozenset(('cast', e) for e in inner)
                 return frozenset([('cast', INT)])
+            if t[1] == 'IntToInt':
+                inner = flat(self.ev(env, t[2]))
+                if inner and all(e[0] in ('ci', 'len', 'sym', 'fld') for e in inner):
+                    return inner
+                return frozenset([INT])
             if t[1] == 'FloatToFloat':
                 return self.ev(env, t[2])
             return frozenset([INT])
-        if k == 'len' or k == 'discr':
+        if k == 'len':
+            c = self.content(env, t[1])
+            if len(c) == 1 and next(iter(c))[0] == 'sym':
+                return frozenset([('len', next(iter(c))[1])])
+            return frozenset([INT])
+        if k == 'discr':
             return frozenset([INT])
         if k == 'index':
             return self.content(env, t[1])
@@ -465,7 +490,17 @@ class ElemEngine:
             if len(rest) == 1:
                 return frozenset(('m', name, x, y) for x in xs for y in rest[0])
             return top('f64 method arity')
+        if p in OPAQUE_FNS:
+            args = [flat(self.ev(env, y)) for y in a]
+            out = set()
+            if len(args) == 1:
+                return frozenset(('m', OPAQUE_FNS[p], x) for x in args[0])
+            if len(args) == 2:
+                return frozenset(('m', OPAQUE_FNS[p], x, y) for x in args[0] for y in args[1])
+            return top('opaque fn arity')
         if p in self.pdb.bodies:
+            if sum(1 for k in self._stack if isinstance(k[1], tuple) and k[1][:1] == ('call',) and k[1][1] == p) > 1 or len(self._stack) > 120:
+                return top('recursive or too deep call of ' + p)
             return self.ev_incrate(env, t)
         s = short(p)
         if p in ELEMS_OF_ARG0 or p.endswith('::to_owned') or p.endswith('::clone'):
